@@ -18,7 +18,7 @@ use crate::util::*;
 use crate::{Runner, Stats};
 use discv5::enr::{CombinedKey, EnrKey, NodeId};
 use discv5::verif::service::{
-    ban_reset, ban_take, response_encode, HandlerIn, HandlerOut, Request, RequestBody, RequestId, Response,
+    ban_reset, ban_take, response_encode, whoareyou_ref, HandlerIn, HandlerOut, Request, RequestBody, RequestId, Response,
     ResponseBody,
 };
 use discv5::{
@@ -517,6 +517,22 @@ impl Inst {
             return None;
         }
         Some(best)
+    }
+
+    /// Keys, connection state and direction of every entry (pending included), bucket by bucket.
+    pub fn snapshot_digest(&self) -> String {
+        let mut s = String::new();
+        for (i, b) in self.snapshot() {
+            s.push_str(&format!("{}:", i));
+            for n in b.nodes.iter() {
+                s.push_str(&format!("{}/{}{}/{},", id8(&n.id), n.conn as u8, n.incoming as u8, n.enr.seq()));
+            }
+            if let Some(p) = &b.pending {
+                s.push_str(&format!("p{}/{}{},", id8(&p.id), p.conn as u8, p.incoming as u8));
+            }
+            s.push(';');
+        }
+        s
     }
 
     pub fn snapshot(&self) -> BTreeMap<usize, SnapBucket> {
@@ -1466,6 +1482,24 @@ impl Runner for ServiceRunner {
                 out.push(format!("!OP spermit {}", x));
                 out.push("ok".into());
             }
+            // the handler asks who a sender is (a packet it could not attribute to a session arrived):
+            // the service answers with the record it knows, and nothing else changes - the packet
+            // proves nothing about its claimed sender
+            ["sway", _, peer, addr] => {
+                let (Some(id), Some(a)) = (parse_peer(peer), parse_addr(addr)) else { return noop(out) };
+                let na = NodeAddress { socket_addr: a, node_id: NodeId::new(&id) };
+                let before = self.insts[&x].snapshot_digest();
+                let _ = self.insts[&x].hout.try_send(HandlerOut::WhoAreYou(whoareyou_ref(na, [7u8; 12])));
+                let so = self.observe(x, false, false);
+                stats.bump("s.whoareyou-queries");
+                let after = self.insts[&x].snapshot_digest();
+                if before != after {
+                    out.push(format!("!MON C01 routing-table-changed-by-a-who-are-you-query peer={}", id8(&id)));
+                    out.push(format!("!MON C12 routing-table-changed-by-a-who-are-you-query peer={}", id8(&id)));
+                }
+                out.push(format!("!OP sway {} {} {}", x, hex::encode(id), sock_num(&a)));
+                self.finish(x, "sway", None, so, None, out, stats);
+            }
             // real time passes
             ["ssleep", _, ms] => {
                 let ms: u64 = ms.parse().unwrap_or(0).min(3000);
@@ -2220,6 +2254,12 @@ fn gen_c12(rng: &mut Rng, ops: &mut Vec<String>, stats: &mut Stats) {
                     _ => ops.push("sfail A #c".into()),
                 }
             }
+        } else if c < 98 {
+            // a packet claiming to come from a (known or unknown) node arrived from somewhere: the
+            // handler asks who that is
+            let who = if rng.chance(3, 4) { peers[pi].seed } else { rng.range(700, 720) };
+            let from = if rng.chance(1, 2) { peer_addr(who, mode) } else { peer_addr(rng.range(800, 820), mode) };
+            ops.push(format!("sway A k{} {}", who, from));
         } else {
             ops.push(format!("sreq A k{} {} {} findnode {}", peers[pi].seed, peer_addr(peers[pi].seed, mode), rid_tok(rng), rng.pick(&["0", "256", "256,255,254", "0,256,255"])));
         }
